@@ -38,7 +38,10 @@ SummaryOf(C, X) ==
   [n \in 1..C.n |-> <<X.t0[n], IF X.nstart[n] = 0 THEN -1 ELSE X.te[n], StCode(X, n),
                       ResCode(X, n)[1], ResCode(X, n)[2], CauseCode(C, X, n), ShCode(C, X, n)>>]
 
-Report == IF Terminated(cfg, S) /\ S.xs = "none" THEN PrintT("OUT|" \o ToString(sid) \o "|" \o ToString(SummaryOf(cfg, S))) ELSE TRUE
+Report == /\ IF Terminated(cfg, S) /\ S.xs = "none" THEN PrintT("OUT|" \o ToString(sid) \o "|" \o ToString(SummaryOf(cfg, S))) ELSE TRUE
+          \* can the specification hang on this scenario ? (used to judge a real run that hangs
+          \* outside the hypothesis of C03)
+          /\ IF Stuck(cfg, S) THEN PrintT("STUCK|" \o ToString(sid)) ELSE TRUE
 
 Inv_C01 == C01(cfg, S)
 Inv_C02 == C02(cfg, S)
